@@ -62,6 +62,9 @@ def run(ctx):
         traces.append(c)
         canaries.append(c["id"])
     trace.validate(ctx, "Trace_RVLinks", traces, "c08_states", canaries=canaries)
+    # ---- composed workspace model: link tables through gaps, attaches and save+load (no state injection)
+    from .. import system
+    system.simulate_and_replay(ctx, 100 if q else 2500, 14 if q else 22)
     # ---- mode B: histories with interleaved save/load
     classes = links.simple_classes()
     hist = []
